@@ -27,6 +27,7 @@ META["claim"] += " " + "Also: a third of the histories without the thread-safety
 META["claim"] += " " + "Round 4: the transport fails (timeout / reset / EIO) after 1-7 bytes of the client's own close frame under send_close(), close() and the automatic reply; a later close() starts no second close frame and releases the transport."
 META["claim"] += " " + 'Round 5: close(timeout=0 / 0.0); two objects in one process - a thread in a receive call on a silent connection while close() runs on the other.'
 META["claim"] += " " + 'Rounds 6-7: leftover bytes after close, real TCP with queued data; close() after send_close(), after an answered server close and after a rejected frame (timing, release, and five later calls raising the connection-closed exception).'
+META["claim"] += " " + 'Round 8: close() interrupted by a non-Exception while writing / waiting; real TCP with a reader thread blocked in recv() while close(timeout=0 / 0.3) is called (known finding for the waiting close).'
 
 CLIENT = ["send", "recv", "ping", "close", "close_code", "close_bad", "send_close", "shutdown"]
 SERVER = ["s_text", "s_ping", "s_close_body", "s_close", "s_eof", "s_reset"]
